@@ -34,6 +34,7 @@ type C10Case struct {
 	Flag     bool      `json:"flag"`
 	Seed     int64     `json:"seed"`
 	Counts   []int     `json:"counts,omitempty"`
+	countsMap map[string]int
 	Sched    bool      `json:"sched,omitempty"` // replay runs: the second and third execution run under two seeded goroutine schedules (an operation may start goroutines of its own)
 	MapSeeds [2]uint64 `json:"map_seeds"`
 	Clocks   [2]int64  `json:"clocks"`
@@ -377,11 +378,22 @@ func (c *C10Case) apply(seed int64) (res opResult) {
 			res.err = err.Error()
 		}
 	case "rarefy":
-		counts := map[string]int{}
-		for i, nm := range c.Aln.Names {
-			counts[nm] = c.Counts[i]
+		// the caller's map of counts, one object for all the executions of the run (a caller that draws several samples
+		// passes the same map again)
+		if c.countsMap == nil {
+			c.countsMap = map[string]int{}
+			for i, nm := range c.Aln.Names {
+				c.countsMap[nm] = c.Counts[i]
+			}
 		}
+		counts := c.countsMap
 		s, err := al.Rarefy(c.N, counts)
+		for i, nm := range c.Aln.Names {
+			if counts[nm] != c.Counts[i] || len(counts) != len(c.Aln.Names) {
+				res.err = fmt.Sprintf("Rarefy changed the map of counts it was given: %q is %d (of %d entries), %d (of %d) given", nm, counts[nm], len(counts), c.Counts[i], len(c.Aln.Names))
+				break
+			}
+		}
 		if err != nil {
 			res.err = err.Error()
 		}
